@@ -248,6 +248,26 @@ CLAIMED.update({
     design='7 (C12), 12.5'),
 })
 
+CLAIMED.update({
+ 'C16': dict(
+    text='Machine-checked proofs (Lean 4) over tables REGENERATED from the current source at every run: every assignment of an instance state in '
+         'context.py - extracted by AST together with the instance states its guards let through (state tests, predicates, early returns, calls to '
+         'invalidate) - is accepted by the regenerated transition table, hence no InvalidTransition for any event sequence (C16_instance_assignments_'
+         'accepted); the instance model assigns at the same sites under the same guards (C16_model_writers_match_source); every state a Supvisors state '
+         'class can decide is accepted by the FSM table; the process status synthesis never raises on any admissible history (C11); no exception other '
+         'than RPCError leaves an XML-RPC method, for every method / state / parameter valuation (C17_clean_faults over the regenerated guard table). '
+         'Tie + search on the implementation: four stages running the real components together (cluster lock-step with processes, stale / duplicated / '
+         'forged notifications, restarts; the real Starter / Stopper with instance losses; the XML-RPC matrix; a free-running closed loop with fake '
+         'Supervisors, rules files and user actions), judged for tracebacks in the last-resort guards, escaped exceptions and hangs.',
+    note='Partial: "never raises an internal error" is proved for the modelled core only (instance state machine, FSM transitions, status synthesis, '
+         'XML-RPC guard sequences); for the commander, the failure handler, the listener entry points for additions / removals / disability and the '
+         'statistics it is searched for on the implementation, not proved. Defects found this way and repaired: 500ed30, 5dae07f, ff0ca64, 83a88a0, '
+         '3678d4d, 5b27e8c. Trusted: tools/extract.py (G6 guard interpreter), harness/c16.py, harness/c16free.py, harness/cluster.py, harness/cmdh.py, '
+         'harness/c17.py.',
+    technique='Lean 4 proofs over tables regenerated from the source (translator) + lock-step correspondence + search for internal errors on the real components',
+    design='7 (C16), 12.5'),
+})
+
 NOT_YET = {}
 
 def main():
